@@ -2,7 +2,7 @@
 import numpy as np
 from hypothesis import strategies as st
 
-from pbt import ir, lossgen, refsolve, jets, refdist
+from pbt import ir, lossgen, refsolve, jets, refdist, strategies as S
 from pbt.harness import PropertyViolation, Inconclusive
 from pbt.util import call
 
@@ -48,6 +48,7 @@ def strategy(tier):
         # a twin: a second loss object of the same kind built from the very same input objects (x0 array, time array, data
         # array) on the same model; it is evaluated after everything we did to the first one
         c["twin"] = draw(st.integers(0, 2)) == 0
+        c["iv_twice"] = draw(st.booleans())
         return c
     return case()
 
@@ -85,6 +86,21 @@ def _check_costIV(case, rec, obj, key, m, su, names, y, th, free, times, cols):
     rec.label("costIV:" + ("target_state" if ts else "all-states"))
     if not np.isfinite(got2) or abs(float(got2) - ref2) > 1e-5 * (1 + abs(ref2)):
         raise PropertyViolation(key + "/costIV", "costIV([theta, x0']) = %.12g, reference = %.12g (x0' = %s)" % (got2, ref2, x0e), case)
+    if case.get("iv_twice"):
+        # a scan over the parameters at fixed initial values: the second answer belongs to the second parameter vector
+        free3 = [S.sig(v * 1.25, 5) for v in free]
+        th3 = lossgen.full_theta(case, free3)
+        traj3 = lossgen.reference_traj(m, th3, x0e, su["t0"], times)
+        yhat3 = traj3[:, cols]
+        if not ((yhat3 <= 1e-9).any() and case["loss"] not in ("Square", "Normal")):
+            ref3 = lossgen.ref_cost(case, y, yhat3)
+            _well_conditioned(case, y, yhat3, traj3, ref3)
+            arg3 = np.array(list(free3) + [x0e[names.index(s_)] for s_ in ts_names])
+            got3 = call(key + "/costIV-second", case, obj.costIV, arg3)
+            rec.label("costIV:asked-twice-same-initial-values")
+            if not np.isfinite(got3) or abs(float(got3) - ref3) > 1e-5 * (1 + abs(ref3)):
+                raise PropertyViolation(key + "/costIV-second", "second costIV (other parameters, same initial values) = %.12g, reference = %.12g" % (
+                    got3, ref3), case)
     obj._setX0(np.array(su["x0"], float))       # costIV moves the loss object's initial state; restore it
 
 
